@@ -10,6 +10,7 @@ import (
 	"github.com/vechain/thor/v2/logdb"
 
 	"verifharness/internal/kvrec"
+	"verifharness/internal/sim"
 	"verifharness/internal/synclogdb"
 	"verifharness/internal/trace"
 )
@@ -74,6 +75,10 @@ func (s *stack) crashDeliver(blk *block.Block, atBulk bool) bool {
 		s.node.Node.VerifProcessBlock(blk)
 	}()
 	s.kv.CrashAt(-1)
+	if crashed == "" && s.has(blk) {
+		// fewer durable writes than on the copy: the import completed. Nothing crashed; log it as the import it was.
+		fail("crash point of block %d not reached (the import completed)", blk.Header().Number())
+	}
 	want := "idx"
 	if atBulk {
 		want = "blk"
@@ -86,13 +91,21 @@ func (s *stack) crashDeliver(blk *block.Block, atBulk bool) bool {
 	// the process is dead; its log db (sqlite) and store are what a restart will find
 	ev := trace.Ev{"e": "Crash", "b": name, "trunk": trunk, "before": want}
 	ev["best"] = s.bestName()
-	w.rec.observe(ev, s.ldb, w.st)
+	if _, re := w.rec.observe(ev, s.ldb, w.st); re != nil {
+		s.die(re, trace.Ev{"after": "Crash", "b": name})
+		return true
+	}
 	s.evs = append(s.evs, ev)
 	s.node.Node.VerifClose()
-	// restart: thor's start-up order (genesis build, repository, genesis logs, syncLogDB, engine, node)
-	nd, err := w.net.OpenStack(s.idx%nValidators, s.kv, s.ldb, quietSync)
-	if err != nil {
-		fail("restart after the crash failed: %v", err)
+	// restart: thor's start-up order (genesis build, repository, genesis logs, syncLogDB, engine, node).
+	// A node that does not come back after this crash is an observation on the real code.
+	var nd *sim.Node
+	if re := guard("restart", func() (err error) {
+		nd, err = w.net.OpenStack(s.idx%nValidators, s.kv, s.ldb, quietSync)
+		return
+	}); re != nil {
+		s.die(re, trace.Ev{"b": name, "before": want})
+		return true
 	}
 	s.node = nd
 	s.api = newAPI(nd.Repo, s.ldb)
